@@ -40,8 +40,10 @@ theorem termU0_mono (H W : Nat) {C : TermPotF} (hC : TermMono C) : TermMono (ter
 theorem termZ_mono_g (H W : Nat) : ∀ (h : Nat) (C : TermPotF), TermMono C → ∀ g g', g ≤ g' → termZ H W h C g ≤ termZ H W h C g'
   | 0, C, hC, g, g', hg => by
     have := hC 0 0 (g + 1) (g' + 1) (Nat.le_refl _) (by omega)
+    have hR := termR_mono H W hg
     simp only [termZ]; omega
   | h + 1, C, hC, g, g', hg => by
+    have hR := termR_mono H W hg
     have h1 := hC (h + 1) (h + 1) (g + 1) (g' + 1) (Nat.le_refl _) (by omega)
     have h2 := termZ_mono_g H W h C hC (g + 1) (g' + 1) (by omega)
     have h3 := termZ_mono_g H W h (termU0 H W C) (termU0_mono H W hC) (g + 1) (g' + 1) (by omega)
@@ -63,6 +65,10 @@ theorem termZ_mono (H W : Nat) {C : TermPotF} (hC : TermMono C) : TermMono (fun 
 
 /-- the three ways a nameless token proceeds -/
 theorem termZ_b1 (H W : Nat) (h : Nat) (C : TermPotF) (g : Nat) : (W + 4) + C h (g + 1) ≤ termZ H W h C g := by
+  cases h <;> simp only [termZ] <;> omega
+
+/-- a `[new()]` step: one re-resolution of `found` -/
+theorem termZ_R (H W : Nat) (h : Nat) (C : TermPotF) (g : Nat) : termR H W g + 1 ≤ termZ H W h C g := by
   cases h <;> simp only [termZ] <;> omega
 
 theorem termZ_b2 (H W : Nat) {h : Nat} (hh : 1 ≤ h) (C : TermPotF) (g : Nat) :
